@@ -18,7 +18,7 @@ import (
 // structural necessary condition of a clause of a property and quantifies over every site of its kind in the library.
 
 func init() {
-	register(&core.Rule{Name: "C17/FLOW-hookerrs", Props: []string{"C17"}, Min: 10,
+	register(&core.Rule{Name: "C17/FLOW-hookerrs", Props: []string{"C17"}, Min: 7,
 		Doc: "the errors an extension handler hands back (recovered hook panics among them) reach the result on every path on which they can be non-empty", Run: r3HookErrs})
 	register(&core.Rule{Name: "C16/FLOW-walkerctx", Props: []string{"C16", "C20", "C04"}, Min: 6,
 		Doc: "the execution walk never cuts itself short on the state of the request context: only ExecutePlan's select decides between the complete response and the context error", Run: r3WalkerCtx})
@@ -172,7 +172,18 @@ func r3HookErrs(c *core.Ctx, r *core.Reporter) {
 					idx = i
 				}
 			}
-			if idx < 0 {
+			// the same two results packaged in a struct: { errs, finish }
+			fieldIdx := -1
+			if idx < 0 && sig.Results().Len() == 1 {
+				if st, ok := derefT(sig.Results().At(0).Type()).Underlying().(*types.Struct); ok {
+					for i := 0; i < st.NumFields(); i++ {
+						if isFormattedErrSlice(st.Field(i).Type()) {
+							fieldIdx = i
+						}
+					}
+				}
+			}
+			if idx < 0 && fieldIdx < 0 {
 				continue
 			}
 			callee := cc.StaticCallee()
@@ -189,14 +200,50 @@ func r3HookErrs(c *core.Ctx, r *core.Reporter) {
 				}
 				what = "handler:" + core.TypeName(cc.Value.Type())
 			}
-			var v ssa.Value = call
-			if sig.Results().Len() > 1 {
-				v = nil
+			var roots []ssa.Value
+			switch {
+			case fieldIdx >= 0:
+				// reads of the error field of the returned struct (directly, or through the local it is stored in)
+				var holders []ssa.Value
 				for _, ref := range *call.Referrers() {
-					if ex, ok := ref.(*ssa.Extract); ok && ex.Index == idx {
-						v = ex
+					switch x := ref.(type) {
+					case *ssa.Field:
+						if x.Field == fieldIdx {
+							roots = append(roots, x)
+						}
+					case *ssa.Store:
+						if x.Val == ssa.Value(call) {
+							holders = append(holders, x.Addr)
+						}
+					case *ssa.FieldAddr:
+						holders = append(holders, call)
 					}
 				}
+				if _, isPtr := sig.Results().At(0).Type().Underlying().(*types.Pointer); isPtr {
+					holders = append(holders, call)
+				}
+				for _, h := range holders {
+					if h.Referrers() == nil {
+						continue
+					}
+					for _, ref := range *h.Referrers() {
+						if fa, ok := ref.(*ssa.FieldAddr); ok && fa.Field == fieldIdx && fa.Referrers() != nil {
+							for _, u := range *fa.Referrers() {
+								if ld, ok := u.(*ssa.UnOp); ok && ld.Op == token.MUL {
+									roots = append(roots, ld)
+								}
+							}
+						}
+					}
+				}
+			case sig.Results().Len() > 1:
+				for _, ref := range *call.Referrers() {
+					if ex, ok := ref.(*ssa.Extract); ok && ex.Index == idx {
+						roots = append(roots, ex)
+					}
+				}
+			default:
+				roots = append(roots, call)
 			}
 			host := core.FuncKey(fn)
 			perFn[host+"->"+what]++
@@ -204,11 +251,16 @@ func r3HookErrs(c *core.Ctx, r *core.Reporter) {
 			if n := perFn[key]; n > 1 {
 				key += "#" + itoa(n)
 			}
-			if v == nil {
+			if len(roots) == 0 {
 				r.Bad(key, call.Pos(), "the errors %s hands back are discarded at the call: a panicking hook of this phase is reported nowhere", what)
 				continue
 			}
-			al := errAliases(v)
+			al := map[ssa.Value]bool{}
+			for _, v := range roots {
+				for a := range errAliases(v) {
+					al[a] = true
+				}
+			}
 			consumes := map[*ssa.BasicBlock]bool{}
 			for a := range al {
 				if a.Referrers() == nil {
@@ -855,10 +907,16 @@ func r3PlainKey(c *core.Ctx, r *core.Reporter) {
 	for _, g := range c.Region(get) {
 		for _, site := range core.CallsTo(g, lookup, false) {
 			args := site.Common().Args
-			if len(args) < 3 {
+			// the key argument: the string among the arguments (wherever the signature puts it)
+			var keyV ssa.Value
+			for _, a := range args {
+				if b, ok := a.Type().Underlying().(*types.Basic); ok && b.Info()&types.IsString != 0 {
+					keyV = a
+				}
+			}
+			if keyV == nil {
 				continue
 			}
-			keyV := args[len(args)-1]
 			// leaves of the key expression, looking through concatenations and merges of differently built values
 			var leaves []ssa.Value
 			shapeOK := true
